@@ -39,43 +39,29 @@ EdgeUniverse(k) == {e \in SUBSET (1..k) : Cardinality(e) >= 2}
 ConnPatterns(k) == {P \in SUBSET EdgeUniverse(k) : Connected(P, k)}
 Classes(k) == {Orbit(P, k) : P \in ConnPatterns(k)}
 
-\* THE definition of the census: class |-> number of k-subsets of U showing a pattern of that class
-\* (every pattern of a class of Classes(k) is connected, so disconnected subsets count nowhere)
-Census(H, U, k) == [c \in Classes(k) |-> Cardinality({S \in KSubsets(U, k) : Pattern(H, S) \in c})]
+\* constant-level (TLC evaluates them once per run): the classes, and the classes by number of hyperedges
+Classes3 == Classes(3)
+Classes4 == Classes(4)
+ClassSet(k) == IF k = 3 THEN Classes3 ELSE IF k = 4 THEN Classes4 ELSE Classes(k)
+BySize(k) == [m \in 0..Cardinality(EdgeUniverse(k)) |-> {c \in ClassSet(k) : \E P \in c : Cardinality(P) = m}]
+BySize3 == BySize(3)
+BySize4 == BySize(4)
+\* the class of P when P is a connected pattern over 1..k, {} when P is anything else
+\* (looked up among the classes with as many hyperedges; MC_Motifs: it is Orbit(P, k) / {})
+ClassOf(P, k) == IF ~(P \subseteq EdgeUniverse(k)) THEN {}
+                 ELSE LET hits == {c \in (IF k = 3 THEN BySize3 ELSE IF k = 4 THEN BySize4 ELSE BySize(k))[Cardinality(P)] : P \in c}
+                      IN IF hits = {} THEN {} ELSE CHOOSE c \in hits : TRUE
 
-(* The same through integers (what exploration and validation evaluate; MC_Motifs has TLC   *)
-(* establish that it is the definition above).  The hyperedges over 1..k are numbered, a    *)
-(* pattern is the number whose binary digits are its hyperedges, and a class is identified  *)
-(* by the least number in it: ClassId.  Tables are constant-level: TLC builds them once.    *)
-RECURSIVE Pow(_, _)
-Pow(b, n) == IF n = 0 THEN 1 ELSE b * Pow(b, n - 1)
-Mask(e) == LET F(n) == Pow(2, n - 1) IN SumSet(F, e)
-EBit(k) == [e \in EdgeUniverse(k) |-> Pow(2, Cardinality({g \in EdgeUniverse(k) : Mask(g) < Mask(e)}))]
-EBit3 == EBit(3)
-EBit4 == EBit(4)
-PatCode(P, k) == LET t == IF k = 3 THEN EBit3 ELSE IF k = 4 THEN EBit4 ELSE EBit(k)
-                     F(e) == t[e]
-                 IN SumSet(F, P)
-EBitOf(k) == IF k = 3 THEN EBit3 ELSE IF k = 4 THEN EBit4 ELSE EBit(k)
-PatOfCode(c, k) == {e \in EdgeUniverse(k) : (c \div EBitOf(k)[e]) % 2 = 1}
-\* code |-> class id, 0 for a pattern that does not connect 1..k (index = code + 1)
-IdTab(k) == [i \in 1..Pow(2, Cardinality(EdgeUniverse(k))) |->
-                LET P == PatOfCode(i - 1, k) IN
-                IF Connected(P, k) THEN Min({PatCode(Q, k) : Q \in Orbit(P, k)}) ELSE 0]
-IdTab3 == IdTab(3)
-IdTab4 == IdTab(4)
-ClassId(P, k) == (IF k = 3 THEN IdTab3 ELSE IF k = 4 THEN IdTab4 ELSE IdTab(k))[PatCode(P, k) + 1]
-ClassIds3 == {IdTab3[i] : i \in DOMAIN IdTab3} \ {0}
-ClassIds4 == {IdTab4[i] : i \in DOMAIN IdTab4} \ {0}
-ClassIds(k) == IF k = 3 THEN ClassIds3 ELSE IF k = 4 THEN ClassIds4 ELSE {IdTab(k)[i] : i \in DOMAIN IdTab(k)} \ {0}
-
-\* k-subset of U |-> id of the class it shows (0: not counted)
-ShownIds(H, U, k) == [S \in KSubsets(U, k) |-> ClassId(Pattern(H, S), k)]
-CountOf(sh, id) == Cardinality({S \in DOMAIN sh : sh[S] = id})
-\* the census restricted to the classes that occur (all the others are 0), keyed by class id
-CensusNZ(H, U, k) == LET sh == ShownIds(H, U, k)
-                     IN [id \in {sh[S] : S \in DOMAIN sh} \ {0} |-> CountOf(sh, id)]
+\* THE census: class |-> number of k-subsets of U showing a pattern of that class
+\* (every pattern in a class of Classes(k) is connected, so other subsets count nowhere)
 ConnSets(H, U, k) == {S \in KSubsets(U, k) : Connected(Pattern(H, S), k)}
+Shown(H, U, k) == [S \in ConnSets(H, U, k) |-> Pattern(H, S)]
+CountIn(sh, cls) == Cardinality({S \in DOMAIN sh : sh[S] \in cls})
+Census(H, U, k) == LET sh == Shown(H, U, k) IN [c \in ClassSet(k) |-> CountIn(sh, c)]
+\* the same function restricted to the classes that occur (all the others are 0)
+CensusNZ(H, U, k) == LET cl == [S \in KSubsets(U, k) |-> ClassOf(Pattern(H, S), k)]
+                         cs == {S \in DOMAIN cl : cl[S] # {}}
+                     IN [c \in {cl[S] : S \in cs} |-> Cardinality({S \in cs : cl[S] = c})]
 
 (* the three passes of the enumeration (anchors): a k-subset is reached by the *)
 (* "full" pass when it is a hyperedge, by the "not full" pass (k = 4) when it  *)
@@ -128,6 +114,8 @@ IsCanonicalDef(P, k) == LET p == PatEnc(P) IN \A f \in Perms(k) : ~SeqLess(PatEn
 (* k-digit number in base k+1, padded with zeros on the right (so a prefix is         *)
 (* smaller); two patterns OF THE SAME SIZE compare as their ascending code sequences, *)
 (* i.e. by who owns the least code they do not share.                                 *)
+RECURSIVE Pow(_, _)
+Pow(b, n) == IF n = 0 THEN 1 ELSE b * Pow(b, n - 1)
 TupCode(A, k) == LET F(n) == n * Pow(k + 1, k - Rank(A, n)) IN SumSet(F, A)
 EdgeCode(e, k) == TupCode(e[1], k) * Pow(k + 1, k) + TupCode(e[2], k)
 ECode3 == [e \in DEdgeU(3) |-> EdgeCode(e, 3)]
